@@ -79,17 +79,18 @@ static void vf_ledger_free(void *p)
 	vf_live[i] = vf_live[vf_nlive - 1]; vf_live_size[i] = vf_live_size[vf_nlive - 1]; vf_nlive--;
 }
 
-/* after the scanner has been destroyed: nothing may be left */
+/* after the scanner has been destroyed: nothing may be left (vf_ledger_baseline blocks belong to a scanner object that is still alive) */
+static int vf_ledger_baseline;
 static void vf_ledger_check_empty(void)
 {
 	int i;
 	vf_ledger_checks++;
-	if (vf_nlive > 0) {
+	if (vf_nlive > vf_ledger_baseline) {
 		vf_ledger_leaks++;
-		if (!vf_ledger_msg[0]) snprintf(vf_ledger_msg, sizeof vf_ledger_msg, "%d block(s) still allocated after yylex_destroy (first: %lu bytes)",
-			vf_nlive, (unsigned long)vf_live_size[0]);
-		for (i = 0; i < vf_nlive; i++) free(vf_live[i]);
-		vf_nlive = 0;
+		if (!vf_ledger_msg[0]) snprintf(vf_ledger_msg, sizeof vf_ledger_msg, "%d block(s) still allocated after the release calls (last: %lu bytes)",
+			vf_nlive - vf_ledger_baseline, (unsigned long)vf_live_size[vf_nlive - 1]);
+		for (i = vf_ledger_baseline; i < vf_nlive; i++) free(vf_live[i]);
+		vf_nlive = vf_ledger_baseline;
 	}
 }
 
